@@ -67,7 +67,19 @@ def agree(a, b, rtol, scale=None):
 
 
 def cp(args):
-    return tuple(a.copy() if isinstance(a, np.ndarray) else a for a in args)
+    """arguments are passed as they are (copying would destroy the memory layout under test)"""
+    return tuple(args)
+
+
+def snapshot(args):
+    return [a.copy() if isinstance(a, np.ndarray) else None for a in args]
+
+
+def restore(args, snap):
+    """undo in-place modifications by a kernel, keeping every array's layout"""
+    for a, s_ in zip(args, snap):
+        if s_ is not None and a.flags.writeable and not np.array_equal(a, s_, equal_nan=True):
+            a[...] = s_
 
 
 class Runner:
@@ -100,14 +112,17 @@ class Runner:
         self.done.setdefault(name, set()).add(variant)
         with np.errstate(all="ignore"):
             ec = ep = None
+            snap = snapshot(args)
             try:
                 c = k["obj"](*cp(args))
             except Exception as e:
                 ec = e
+            restore(args, snap)
             try:
                 p = self.call_py(name, args)
             except Exception as e:
                 ep = e
+            restore(args, snap)
             if ec is not None and ep is not None and type(ec).__name__ == type(ep).__name__:
                 # the input is outside the kernel's domain in both executions (e.g. default DR scan range of an element without resonances)
                 ctx.count("both_raise_" + type(ec).__name__)
@@ -334,6 +349,15 @@ def do_radial(R, rng, thorough):
                 R.ctx.count("bp_nonfinite_skipped"); continue
             R.pair(name, "f64", args, scale=bp_scale(c0), rtol=1e-8)
             R.pair(name, "q-int64", args[:-1] + (np.asarray(args[-1]).astype(np.int64),), scale=bp_scale(c0), rtol=1e-8)
+            # species arrays as non-contiguous views: a column block of a C-ordered matrix, a strided column
+            def colblock(v):
+                M = np.zeros((v.shape[0], 3)); M[:, 1:2] = v; return M[:, 1:2]
+            def strided(v):
+                M = np.repeat(v, 2, axis=0); return M[::2]
+            R.pair(name, "species-column-block", args[:-3] + tuple(colblock(v) for v in args[-3:]), scale=bp_scale(c0), rtol=1e-8)
+            R.pair(name, "species-strided", args[:-3] + tuple(strided(v) for v in args[-3:]), scale=bp_scale(c0), rtol=1e-8)
+            R.pair(name, "grid-strided", (np.repeat(args[0], 2)[::2],) + ((np.repeat(args[1], 2)[::2],) if isinstance(args[1], np.ndarray) else (args[1],)) + args[2:], scale=bp_scale(c0), rtol=1e-8)
+            R.pair(name, "species-F-column", args[:-3] + tuple(np.asfortranarray(np.hstack([v, v]))[:, 0:1] for v in args[-3:]), scale=bp_scale(c0), rtol=1e-8)
             if name.endswith("ebeam"):
                 R.pair(name, "int-scalars+ldu", (g, cur, r_e, int(round(e)), nl, kTs, qs, None, ldu), scale=None, rtol=1e-8)
 
@@ -359,9 +383,16 @@ def do_advanced(R, rng, thorough):
     R.pair("_smooth_to_zero", "f64-strided", (np.repeat(xs_, 2)[::2],))
     R.pair("_smooth_to_zero", "int64", (np.arange(0, 5, dtype=np.int64),))
     # right-hand side
-    for k in range(8 if thorough else 2):
-        fixed = {"RADIAL_DYNAMICS": bool(k % 2)}
-        m, desc = advcorr.build_model(rng, n_grid=60, zmax=12, k=int(rng.integers(1, 3)), **fixed)
+    # option patterns: every switch takes both values within the first four models
+    pats = [[True] * 12, [False] * 12, [bool(i % 2) for i in range(12)], [not bool(i % 2) for i in range(12)]]
+    for k in range(10 if thorough else 4):
+        if k < 4:
+            opts, okw = gens.make_options(bits=pats[k])
+            fixed = {"RADIAL_DYNAMICS": okw["RADIAL_DYNAMICS"]}
+            m, desc = advcorr.build_model(rng, n_grid=60, zmax=10, k=int(rng.integers(1, 3)), opts=opts)
+        else:
+            fixed = {"RADIAL_DYNAMICS": bool(k % 2)}
+            m, desc = advcorr.build_model(rng, n_grid=60, zmax=12, k=int(rng.integers(1, 3)), **fixed)
         y = gens.make_state(rng, m)
         if fixed["RADIAL_DYNAMICS"]:
             y[:m.nq] = np.minimum(y[:m.nq], 1e7); y[m.nq:] = np.maximum(y[m.nq:], 5.0 * np.maximum(m.q, 1))
